@@ -372,19 +372,23 @@ def check_bigm(ctx) -> None:
 
 
 def run(ctx) -> None:
-    ctx.rule("C18.convention", "T5: the import/export convention agrees across the seven sites (evaluated over both exchange orientations and all sign patterns)", floor=8)
+    ctx.rule("C18.convention", "T5: the import/export convention agrees across the seven sites (evaluated over both exchange orientations and all sign patterns)", floor=8, hard=0)
     ctx.rule("C18.none", "T6: None only under a non-optimal status; every solve is followed by a status test", floor=5)
-    ctx.rule("C18.open", "finite domain: open_exchanges number/boolean handling", floor=2)
-    ctx.rule("C18.bigm", "T5: one big-M over all exchange bounds", floor=1)
+    ctx.rule("C18.open", "finite domain: open_exchanges number/boolean handling", floor=2, hard=0)
+    ctx.rule("C18.bigm", "T5: one big-M over all exchange bounds", floor=1, hard=0)
     ctx.rule("C18.capture", "T6: growth constraint built from the objective before it is replaced", floor=1)
     ctx.rule("C18.formulation", "formulation: minimal_medium poses the documented problem and reads the medium off the answer (oracle evaluation)", floor=10)
+    n0 = len(ctx.findings)
     try:
         medform.check_minimal_medium(ctx, "C18.formulation")
     except AnalysisError as exc:
         ctx.defer(str(exc))
     ctx.guard(medform.check_medium_property, ctx, "C18.formulation")
-    check_convention(ctx)
+    formulation_failed = len(ctx.findings) > n0 or bool(ctx.deferred)
+    # the per-site readings (loop bodies evaluated one orientation at a time, the open_exchanges branch, the big-M
+    # expression) explain; the formulation clause evaluates the same functions end to end and decides
+    ctx.explain(formulation_failed, check_convention, ctx)
     check_none(ctx)
-    ctx.guard(check_open, ctx)
-    check_bigm(ctx)
+    ctx.explain(formulation_failed, check_open, ctx)
+    ctx.explain(formulation_failed, check_bigm, ctx)
     fa.check_capture(ctx, "C18.capture", [("cobra.medium.minimal_medium", "minimal_medium")])
